@@ -207,14 +207,21 @@ func (w *World) apply(ds *Doc, op sim.Op, o *Obs) {
 		if w.Stable {
 			src = filepath.Join(w.Tmp, fmt.Sprintf("%ssource%d.docx", w.FilePrefix, ds.Slot)) // the producer's file: opened, never written by the library
 		}
-		d2, err := w.OpenBytesAt(res.Bytes, op.Int(2), src)
+		via := op.Int(2)
+		if op.Int(3) == 1 {
+			// a file several documents - of this world and of the other tasks' worlds - are opened from (never written by the library,
+			// written by the harness only when it is not there yet): documents opened from one file are still independent documents
+			src, via = filepath.Join(filepath.Dir(w.Tmp), fmt.Sprintf("common-%d-%d.docx", op.Int(0), op.Int(1))), 2
+			w.Stats.Probe("opened_from_a_file_other_documents_open_too")
+		}
+		d2, err := w.OpenBytesAt(res.Bytes, via, src)
 		o.Err = err
 		if err != nil {
 			ds.Dead = true
 			o.Res = "open-err"
 			return
 		}
-		w.Extra[fmt.Sprintf("foreign-src:%d", ds.Slot)] = []any{res, op.Int(2), src}
+		w.Extra[fmt.Sprintf("foreign-src:%d", ds.Slot)] = []any{res, via, src}
 		ds.D, ds.Foreign, ds.Base, ds.Dead = d2, res, res.Bytes, false
 		ds.Paras, ds.Tables, ds.Images = nil, nil, nil
 		if d2.Body != nil {
